@@ -300,6 +300,11 @@ def extract(repo: str):
         "def classTable : List Cls :=\n  " + chunks([f"cls{i}" for i in range(len(lean_cls))]) + "\n\n"
         "end Ofx.Generated.SchemaData\n\nnamespace Ofx.Generated\nopen Ofx\n\n"
         "def schema : Schema := { classes := SchemaData.classTable, enums := SchemaData.enumTables }\n\n"
+        "/- classes by name (so that proofs about particular classes do not depend on their position in the table) -/\n"
+        "namespace ByName\n"
+        + "\n".join(f"def idx_{cn} : Nat := {i}\ndef cls_{cn} : Cls := SchemaData.cls{i}"
+                    for i, (cn, _c) in enumerate(classes) if cn.isidentifier()) + "\n"
+        "end ByName\n\n"
         "end Ofx.Generated\n")
     schema_lean = schema_lean.replace("SCHEMA_POOL_PLACEHOLDER", pool_defs())
     _POOL.clear()
